@@ -125,7 +125,8 @@ def make_source(variant="base", n=5):
         data = _vals(shape[0], tag, k)
         d = H.H5Dataset(grp, name, shape, dtype, chunks, filters, fl32, data)
         grp.members[name] = d
-        dict.update(d.attrs, attrs or {})
+        # every layout representative carries attributes
+        dict.update(d.attrs, attrs or {"origin": f"attr of {name}"})
         return d
     F = H.DType("f")
     add(ev, "deform", (n,), F, "d", chunks=(2,), attrs={"unit": "1"})
@@ -154,8 +155,10 @@ def make_source(variant="base", n=5):
     d = H.H5Dataset(lg, "vlen", (3,), H.DType("O"), None, None, False,
                     [b"short", long_line, b""])
     lg.members["vlen"] = d
+    dict.update(d.attrs, {"origin": "old dclab"})
     d = H.H5Dataset(lg, "proper", (2,), S100, (2,), z5, True, [b"p", b"q"])
     lg.members["proper"] = d
+    dict.update(d.attrs, {"origin": "dclab"})
     d = H.H5Dataset(lg, "dclab-condense", (1,), S100, (1,), z5, True,
                     [b"old condense log"])
     lg.members["dclab-condense"] = d
@@ -858,24 +861,31 @@ class MWriter:
     _strict_attrs = True
 
     def __init__(self, rec, path_or_h5file, mode="append",
-                 compression_kwargs=None, **kw):
+                 compression_kwargs=None, registry=None, **kw):
         self.rec = rec
         self.h5 = path_or_h5file
+        if registry is not None and isinstance(self.h5, MPath):
+            if self.h5.name not in registry:
+                raise L.ModelFault("FileNotFoundError",
+                                   f"no file at {self.h5.name}")
+            self.h5 = registry[self.h5.name]
         if not isinstance(self.h5, H.H5File):
             raise L.ModelFault("TypeError", "RTDCWriter model needs the "
                                "open output file")
         if mode != "append":
             rec.calls.append(("writer-mode", mode))
-        self.h5.require_group("events")
+        # like RTDCWriter: the "events" group is created by store_feature
+        # and when the context is left, not by the constructor
 
     def __enter__(self):
         return self
 
     def __exit__(self, *a):
+        self.h5.require_group("events")
         return False
 
     def store_feature(self, feat, data, shape=None):
-        ev = self.h5["events"]
+        ev = self.h5.require_group("events")
         self.rec.calls.append(("store_feature", feat, data,
                                feat in ev.members))
         if feat not in ev.members:
@@ -978,11 +988,13 @@ def eval_condense(ctx, repo, agg):
         res = L.run(lambda: fn(ds=ds, h5_cond=out,
                                store_ancillary_features=sa,
                                store_basin_features=sb, warnings_list=wl))
+        lab = ("completes for an HDF5 source" if hdf5 else
+               "completes for a non-HDF5 source (empty output file)")
         if res[0] != "ok":
-            agg.add("R8.5", "condense_dataset completes", node, False,
+            agg.add("R8.5", lab, node, False,
                     f"condense_dataset fails ({opts}): {_res(res)}")
             continue
-        agg.add("R8.5", "condense_dataset completes", node, True, "")
+        agg.add("R8.5", lab, node, True, "")
         copied = {"deform", "area_um"} if hdf5 else set()
         internal = {"userdef2"} if hdf5 else set()
         want = {k for k, v in C.items() if k in SCALAR and v in (
@@ -1035,6 +1047,151 @@ def eval_condense(ctx, repo, agg):
                     not ds.h5file.write_attempts,
                     f"condense_dataset modifies the input: "
                     f"{ds.h5file.write_attempts[:1]}")
+
+
+class MPath:
+    """model pathlib.Path for the tasks"""
+    _strict_attrs = True
+
+    def __init__(self, name, log):
+        self.name = name
+        self.suffix = ".rtdc"
+        self._log = log
+
+    def rename(self, other):
+        self._log.append(("rename", self.name, getattr(other, "name", other)))
+
+    def __str__(self):
+        return self.name
+
+    def __format__(self, spec):
+        return self.name
+
+
+class MCatch:
+    """warnings.catch_warnings(record=True)"""
+    _strict_attrs = True
+
+    def __init__(self, items):
+        self.items = items
+
+    def __enter__(self):
+        return self.items
+
+    def __exit__(self, *a):
+        return False
+
+
+def eval_compress(ctx, repo, agg):
+    """R8.20: the command logs of the task - logs of earlier runs are kept
+    under another name, the logs of this run are written freshly"""
+    node = repo.func(COMPRESS, "compress")
+    it = L.Interp(repo)
+    for old_logs, with_warnings in itertools.product(
+            ((), ("dclab-compress",), ("dclab-compress",
+                                       "dclab-compress-warnings")),
+            (False, True)):
+        rec = Recorder()
+        log = []
+        wlist = []
+        src = make_source("base")
+        src.readonly = False
+        for k in ("dclab-condense",):
+            del src["logs"].members[k]
+        for k in old_logs:
+            src["logs"].members[k] = H.H5Dataset(
+                src["logs"], k, (1,), H.DType("S", 100), (1,),
+                {H.ZSTD: (1, (5,), b"z")}, True,
+                [f"earlier run: {k}".encode()])
+        src.seal()
+        registry = {}
+        p_in, p_out, p_tmp = (MPath(n_, log) for n_ in (
+            "in.rtdc", "out.rtdc", "out.rtdc~"))
+
+        def open_file(path, mode="r", *a, **k):
+            name = getattr(path, "name", path)
+            if mode == "r":
+                if name != "in.rtdc":
+                    raise L.ModelFault("FileNotFoundError", str(name))
+                return src
+            f = H.H5File(f"file {name} (mode {mode})")
+            registry[name] = f
+            return f
+
+        def rtdc_copy_stub(src_h5file, dst_h5file, **kw):
+            rec.calls.append(("rtdc_copy", src_h5file, dst_h5file, kw))
+            for g in ("events", "logs", "tables"):
+                if g in src_h5file:
+                    dst_h5file.members[g] = H.clone(src_h5file[g],
+                                                    dst_h5file, g)
+            if with_warnings:
+                wlist.append("a warning raised while copying")
+
+        h5ns = L.namespace("h5py", File=open_file)
+        ext = {"h5py": h5ns, "hdf5plugin": H.hdf5plugin_namespace(),
+               "rtdc_copy": rtdc_copy_stub,
+               "RTDCWriter": lambda *a, **k: MWriter(
+                   rec, *a, registry=registry, **k),
+               "util": L.namespace("util", hashfile=lambda *a, **k: "md5sum"),
+               "common": L.namespace(
+                   "common",
+                   setup_task_paths=lambda *a, **k: (p_in, p_out, p_tmp),
+                   get_command_log=lambda **k: ["this run: command log"],
+                   assemble_warnings=lambda w: ["this run: warnings"]),
+               "warnings": L.namespace(
+                   "warnings", warn=lambda *a, **k: None,
+                   simplefilter=lambda *a, **k: None,
+                   catch_warnings=lambda **k: MCatch(wlist)),
+               "pathlib": L.Opaque("pathlib"), "argparse": L.Opaque("ap"),
+               "version": "0.0"}
+        env = it.env(COMPRESS, ext)
+        fn = env.lookup("compress")
+        res = L.run(lambda: fn(path_in="in.rtdc", path_out="out.rtdc"))
+        opts = (f"input with earlier logs {list(old_logs)}, "
+                f"{'with' if with_warnings else 'no'} warnings in this run")
+        if res[0] != "ok":
+            agg.add("R8.20", "compress completes", node, False,
+                    f"compress fails on the model ({opts}): {_res(res)}")
+            continue
+        agg.add("R8.20", "compress completes", node, True, "")
+        out = registry.get("out.rtdc~")
+        lg = out["logs"].members if out is not None and "logs" in out else {}
+        stores = [c for c in rec.calls if c[0] == "store_log"]
+        appended = [c[1] for c in stores if c[2]]
+        agg.add("R8.20", "logs of this run are written freshly", node,
+                not appended,
+                f"{opts}: the log(s) {appended} of this run are appended to "
+                f"the log of an earlier run of the same name - the earlier "
+                f"log is not preserved as it was")
+        names = {c[1] for c in stores}
+        want = {"dclab-compress"} | ({"dclab-compress-warnings"}
+                                     if with_warnings else set())
+        agg.add("R8.20", "command and warning logs are written", node,
+                names == want, f"{opts}: logs written {sorted(names)}, "
+                f"expected {sorted(want)}")
+        kept = {}
+        for k in old_logs:
+            hit = [n_ for n_, d in lg.items()
+                   if d.flat() == [f"earlier run: {k}".encode()]]
+            kept[k] = hit
+        lost = [k for k, h_ in kept.items() if not h_]
+        same_name = [k for k, h_ in kept.items() if k in h_]
+        agg.add("R8.20", "earlier task logs are kept under another name",
+                node, not lost and not same_name,
+                f"{opts}: " + (f"earlier log(s) {lost} are gone" if lost else
+                               f"earlier log(s) {same_name} keep the name of "
+                               f"this run's logs (they pass for logs of this "
+                               f"run / get extended)"))
+        other = [k for k in ("fixed", "vlen", "proper") if k not in lg]
+        agg.add("R8.20", "other logs are untouched", node, not other,
+                f"{opts}: logs {other} of the input are missing")
+        agg.add("R8.3", "model source stays untouched", node,
+                not src.write_attempts, f"compress modifies the input: "
+                f"{src.write_attempts[:1]}")
+        ok = log == [("rename", "out.rtdc~", "out.rtdc")]
+        agg.add("R8.20", "temp file renamed last", node, ok,
+                f"{opts}: renames {log}")
+
 
 
 # ----------------------------------------------------------------------
@@ -1426,6 +1583,7 @@ GOOD = {
     "R8.5": "as specified on every option combination",
     "R8.6": "as documented on every option combination",
     "R8.7": "copy is a fixpoint of the compression predicate",
+    "R8.20": "holds for every combination of earlier logs and warnings",
 }
 
 
@@ -1448,6 +1606,9 @@ def run(ctx):
              minimum=4)
     ctx.rule("R8.8", "tdms2rtdc exports the dataset's feature list, honours "
              "the boundary filter, keeps the logs", minimum=6)
+    ctx.rule("R8.20", "dclab-compress: logs of earlier runs are kept under "
+             "another name, this run's logs are fresh, other logs untouched",
+             minimum=6)
     ctx.rule("R8.9", "defect predicates on model attribute sets: a replacing "
              "recipe exists; imprecise data (time) are hidden only when the "
              "recipe can run; documented decision tables", minimum=14)
@@ -1455,6 +1616,7 @@ def run(ctx):
     eval_h5ds_copy(ctx, repo, agg)
     eval_rtdc_copy(ctx, repo, agg)
     eval_condense(ctx, repo, agg)
+    eval_compress(ctx, repo, agg)
     agg.flush(ctx, GOOD)
     r83_taint(ctx, repo)
     r83_tasks(ctx, repo)
@@ -1797,4 +1959,60 @@ TWINS = list(TWINS) + [
     ("volume: repair log tested by membership", DEFECT,
      ('    if "dclab_issue_141" in list(h5.get("logs", {}).keys()):',
       '    if "dclab_issue_141" in h5.get("logs", {}):')),
+]
+
+# round-2 seeded changes (/tmp/seed/out2_C08/patch1-3) and the repaired
+# .tdms condense defect (3c0a5ba)
+MUTANTS = list(MUTANTS) + [
+    ("attributes only copied on the chunk-wise route (seeded)", COPIER,
+     ("            # Also write all the attributes\n"
+      "            for key in src.attrs:\n"
+      "                dst.attrs[key] = src.attrs[key]\n",
+      "                # Also write all the attributes\n"
+      "                for key in src.attrs:\n"
+      "                    dst.attrs[key] = src.attrs[key]\n"), "R8.1"),
+    ("compress renames only the logs known so far (seeded)", COMPRESS,
+     ('            for lkey in ["dclab-compress", "dclab-compress-warnings"]:',
+      "            for lkey in logs:"), "R8.20"),
+    ("compress overwrites nothing: old logs not renamed at all", COMPRESS,
+     ('                    hc["logs"][f"{lkey}_{md55m}"] = hc["logs"][lkey]\n'
+      '                    del hc["logs"][lkey]\n',
+      "                    pass\n"), "R8.20"),
+    ("compress drops the old logs instead of renaming", COMPRESS,
+     ('                    hc["logs"][f"{lkey}_{md55m}"] = hc["logs"][lkey]\n',
+      ""), "R8.20"),
+    ("compress forgets the warnings log", COMPRESS,
+     ('            logs["dclab-compress-warnings"] = '
+      'common.assemble_warnings(w)\n', "            pass\n"), "R8.20"),
+    ("condense: ancillary features only with basin features (seeded)",
+     CONDENSE,
+     ("    if store_ancillary_features:\n"
+      "        feats_sc_anc = [f for f in ds.features_ancillary if\n"
+      "                        (f in feats_sc and f not in feats_exclude)]\n"
+      '        cmd_dict["features_ancillary"] = feats_sc_anc\n'
+      "        if feats_sc_anc:\n"
+      "            features |= set(feats_sc_anc)\n"
+      '            print(f"Using ancillary features {feats_sc_anc}")\n',
+      "        if store_ancillary_features:\n"
+      "            feats_sc_anc = [f for f in ds.features_ancillary if\n"
+      "                            (f in feats_sc and f not in "
+      "feats_exclude)]\n"
+      '            cmd_dict["features_ancillary"] = feats_sc_anc\n'
+      "            if feats_sc_anc:\n"
+      "                features |= set(feats_sc_anc)\n"), "R8.5"),
+    ("condense of a non-HDF5 source without events group (3c0a5ba returns)",
+     CONDENSE,
+     ('    h5_cond.require_group("events")\n', ""), "R8.5"),
+]
+
+TWINS = list(TWINS) + [
+    ("compress: rename loop over a tuple with a local name", COMPRESS,
+     ('            for lkey in ["dclab-compress", "dclab-compress-warnings"]:',
+      '            old_names = ("dclab-compress-warnings", "dclab-compress")\n'
+      "            for lkey in old_names:")),
+    ("condense: groups ensured in one loop", CONDENSE,
+     [('    h5_cond.require_group("events")\n', ""),
+      ('    h5_cond.require_group("logs")\n',
+       '    for grp_name in ("logs", "events"):\n'
+       "        h5_cond.require_group(grp_name)\n")]),
 ]
